@@ -69,7 +69,7 @@ def unit_cases(ctx, quick):
     rng = np.random.default_rng(ctx.seed + 1600)
     out = []
 
-    def deeper(d, kinds=('grid', 'distinct', 'sparse', 'nanvar')):
+    def deeper(d, kinds=('grid', 'distinct', 'sparse', 'nanvar', 'few')):
         return [VS.random_tau(rng, d - k, k, kinds[int(rng.integers(0, len(kinds)))]) for k in range(1, max(1, d - 1))]
 
     # exhaustive over the strict orderings of the pairwise |tau| ranks, d <= 4 (sampled in the quick tier for d = 4)
@@ -83,12 +83,12 @@ def unit_cases(ctx, quick):
                 t = d - 1 if rng.random() < 0.7 else int(rng.choice([1, 2, 3, d + 2]))
                 out.append({'src': 'ordering', 'vt': vt, 'd': d, 't': t, 'taus': [VS.ordering_matrix(p, signs)] + deeper(d)})
     # boundary-biased random matrices with ties, NaN variables, NaN cells, d <= 7
-    n_rand = 120 if quick else 2400
+    n_rand = 240 if quick else 3000
     for i in range(n_rand):
         vt = VTS[i % 3]
         d = int(rng.choice([2, 3, 4, 5, 5, 6, 6, 7, 7]))
         t = d - 1 if rng.random() < 0.5 else int(rng.choice([0, 1, 2, 3, d - 1, d + 2]))
-        kind = ('grid', 'distinct', 'nanvar', 'sparse', 'grid')[int(rng.integers(0, 5))]
+        kind = ('grid', 'distinct', 'nanvar', 'sparse', 'few', 'few')[int(rng.integers(0, 6))]
         out.append({'src': kind, 'vt': vt, 'd': d, 't': t, 'taus': [VS.random_tau(rng, d, 0, kind)] + deeper(d)})
     return out
 
@@ -441,7 +441,7 @@ def run(ctx):
     ctx.rule('unit level: real VineCopula.train_vine + Tree.fit + CenterTree/DirectTree/RegularTree with synthetic tau matrices per level '
              '(select_copula, get_tau_matrix, prepare_next_tree stubbed): every strict ordering of the pairwise |tau| ranks for d = 2,3,4 '
              '(40 sampled orderings of the 720 for d = 4 in the quick tier) with random signs, and boundary-biased random matrices for d = 2..7 '
-             '(quarter grid with many ties, +-1, 0, denormal, NaN variables, NaN cells; levels >= 2 asymmetric), truncation in {0,1,2,3,d-1,d+2}; '
+             '(quarter grid with many ties, three-valued matrices, +-1, 0, denormal, NaN variables, NaN cells; levels >= 2 asymmetric), truncation in {0,1,2,3,d-1,d+2}; '
              'numpy argsort order and Python set-iteration orders recorded and replayed; all trees compared with vm_compute of '
              'Model.Vine.train_vine_gen_opt; Spec.VineValid.valid_vine evaluated on the implementation output')
     ctx.rule('end to end: VineCopula(type).fit(table, truncated=t) for type in center/direct/regular, 2..7 columns, t in {1,2,3,d-1,d+2}, tables of '
